@@ -512,12 +512,30 @@ theorem undef_unset_vs_none_example :
 theorem setattr_none_recorded (tbl : List MethodRec) (O : Oracles) (c : ClassOpts)
     (fields : List (String × FieldDecl)) (x : Inst) (f : String) (fd : FieldDecl)
     (hu : x.undef = true) (hm : c.immutable = false) (hf : lookup f fields = some fd)
-    (hr : c.required.contains f = false) (hi : c.immFields.contains f = false) :
+    (hr : c.required.contains f = false)
+    (hi : c.immFields.contains f = false ∨ lookup f x.attrs = none) :
     stepI tbl O c fields x (.setattr f .none)
       = ({ x with nones := addName f x.nones, attrs := assocDel f x.attrs }, .ok) := by
-  simp only [stepI, setattrUndef, hu, hm, hf, hr, hi, PyVal.isNone, if_true, Bool.false_and,
-    Bool.false_eq_true, if_false, Option.isSome, Bool.not_true, Bool.not_false, Bool.and_self,
+  have hg : (c.immFields.contains f && (lookup f x.attrs).isSome) = false := by
+    rcases hi with h | h
+    · rw [h]; rfl
+    · rw [h]; simp
+  simp only [stepI, setattrUndef, hu, hm, hf, hr, hg, PyVal.isNone, if_true, Bool.false_and,
+    Bool.false_eq_true, if_false, Option.isSome_some, Bool.not_true, Bool.not_false, Bool.and_self,
     Bool.true_and]
+
+/-- … and on an immutable field that already holds a value it is refused and changes nothing
+    (since f1caf24), like every other assignment to such a field -/
+theorem setattr_none_immutable_field_refused (tbl : List MethodRec) (O : Oracles) (c : ClassOpts)
+    (fields : List (String × FieldDecl)) (x : Inst) (f : String) (fd : FieldDecl) (w : PyVal)
+    (hu : x.undef = true) (hf : lookup f fields = some fd)
+    (hr : c.required.contains f = false) (hi : c.immFields.contains f = true)
+    (hs : lookup f x.attrs = some w) :
+    stepI tbl O c fields x (.setattr f .none) = (x, .err .valueErr) := by
+  simp only [stepI, setattrUndef, hu, hf, hr, hi, hs, PyVal.isNone, if_true, Bool.false_and,
+    Bool.false_eq_true, if_false, Option.isSome_some, Bool.not_true, Bool.not_false, Bool.and_self,
+    Bool.true_and]
+  split <;> rfl
 
 /-- former finding `pickle-not-eq:none-fields-lost` (fixed by 7925862): the unpickled copy of
     `C(a=1, b=None)` keeps `b` in `_none_fields`: it `==` the original in both directions, is still
@@ -545,28 +563,21 @@ theorem none_replaces_value_example :
         { cls := "C", attrs := [("a", .int 1), ("b", .int 5)], undef := true } = false := by
   decide
 
-/-- finding `eq-vs-readback:none-recorded-over-immutable-field` (what ed6dbae left): on an
-    *immutable field* that holds a value, `x.b = None` is neither refused nor applied — the name is
-    recorded in `_none_fields`, `__dict__` keeps the value.  Every name then reads back the same as
-    before, yet the instance is `!=` what it was: without its `_none_fields` conjunct
-    `instEq_fieldwise` is false of the code on such fields -/
-theorem none_over_immutable_field_counterexample :
+/-- former finding `eq-vs-readback:none-recorded-over-immutable-field` (fixed by f1caf24): on an
+    *immutable field* that holds a value, `x.b = None` is refused with ValueError and the instance
+    — `__dict__` and `_none_fields` — stays `==` what it was; on a not yet set immutable field the
+    explicit `None` is recorded as on any other field -/
+theorem none_over_immutable_field_example :
     (stepI Generated.wrappers exO { exUC with immFields := ["b"] } exUFields
-        { cls := "C", attrs := [("a", .int 1), ("b", .int 5)], undef := true } (.setattr "b" .none)).2 = .ok
+        { cls := "C", attrs := [("a", .int 1), ("b", .int 5)], undef := true } (.setattr "b" .none)).2
+        = .err .valueErr
     ∧ (stepI Generated.wrappers exO { exUC with immFields := ["b"] } exUFields
-        { cls := "C", attrs := [("a", .int 1), ("b", .int 5)], undef := true } (.setattr "b" .none)).1.nones = ["b"]
-    ∧ (stepI Generated.wrappers exO { exUC with immFields := ["b"] } exUFields
-        { cls := "C", attrs := [("a", .int 1), ("b", .int 5)], undef := true } (.setattr "b" .none)).1.attrs
-        = [("a", .int 1), ("b", .int 5)]
-    ∧ instEq exU { cls := "C", attrs := [("a", .int 1), ("b", .int 5)], nones := ["b"], undef := true }
-                 { cls := "C", attrs := [("a", .int 1), ("b", .int 5)], undef := true } = false
-    ∧ ∀ k, getA exU { cls := "C", attrs := [("a", .int 1), ("b", .int 5)], nones := ["b"], undef := true } k
-         = getA exU { cls := "C", attrs := [("a", .int 1), ("b", .int 5)], undef := true } k := by
-  refine ⟨by decide, by decide, by rfl, by decide, fun k => ?_⟩
-  by_cases ha : k = "a"
-  · subst ha; rfl
-  · by_cases hb : k = "b"
-    · subst hb; rfl
-    · simp [getA, lookup, ha, hb, exU]
+        { cls := "C", attrs := [("a", .int 1), ("b", .int 5)], undef := true } (.setattr "b" .none)).1.nones = []
+    ∧ instEq exU (stepI Generated.wrappers exO { exUC with immFields := ["b"] } exUFields
+        { cls := "C", attrs := [("a", .int 1), ("b", .int 5)], undef := true } (.setattr "b" .none)).1
+        { cls := "C", attrs := [("a", .int 1), ("b", .int 5)], undef := true } = true
+    ∧ instEq exU (stepI Generated.wrappers exO { exUC with immFields := ["b"] } exUFields exUnset
+        (.setattr "b" .none)).1 exNone = true := by
+  decide
 
 end Typedpy.C11
